@@ -59,6 +59,9 @@ package logic
 //   4. assembler.go resolveLabels: v13 backward varint jump measured from lr.position -> roundtrip/check
 //   5. assembler.go disassemble immInt8 printed unsigned                              -> reasm-error (frame_bury 255)
 //
+// Known findings kept visible under stable keys: C33:reasm-error:cblock-behind-unreferenced-label
+// (part E) and C33:assembler-panic:pseudo:int+loads (part B: `int 16384; loads` panics typeLoads).
+//
 // Not covered: programs of more than two arbitrary instructions (beyond the branch alphabet),
 // macros (#define), source-map output, comments/whitespace variants of the text.
 //
@@ -336,7 +339,7 @@ func c33Forms(v uint64, reduced bool, oneForm bool) []c33Form {
 		bytesF = []string{"0x", `"abc"`}
 	}
 	if oneForm {
-		ints, bytesF = ints[:1], bytesF[:1]
+		bytesF = bytesF[:1] // both int forms stay: a tracked constant drives the type refiners
 	}
 	for _, x := range ints {
 		add("int", "int "+x, "")
@@ -432,15 +435,21 @@ func (e *c33Env) fail(key, what string, replay any) {
 	}
 	e.st.failKeys[key]++
 	e.st.mu.Unlock()
-	if e.st.fails.Add(1) <= 8 {
-		e.r.Report(key, what, replay)
-	} else {
-		e.r.Report(key, what, nil) // counted by the engine; only the first few are stored
-	}
+	e.st.fails.Add(1)
+	e.r.Report(key, what, replay) // the engine stores the first few and counts the rest
 }
 
 // roundTrip runs oracle (1) and (2) on one source text. It returns whether the assembler accepted.
-func (e *c33Env) roundTrip(comp string, src string, v uint64, name string, modes RunMode, emptyTail bool) bool {
+func (e *c33Env) roundTrip(comp string, src string, v uint64, name string, modes RunMode, emptyTail bool) (accepted bool) {
+	defer func() {
+		// the assembler / disassembler have no recover of their own: a panic on an enumerated
+		// source is a violation with a key that names the instruction forms involved
+		if x := recover(); x != nil {
+			e.fail("C33:assembler-panic:"+name, fmt.Sprintf("v%d: assembler/disassembler panicked: %v\nsource:\n%s", v, x, src),
+				map[string]any{"component": comp, "version": v, "source": src})
+			accepted = false
+		}
+	}()
 	ops, err := AssembleStringWithVersion(src, v)
 	e.r.Eval()
 	if err != nil || ops.Program == nil {
